@@ -3,7 +3,6 @@
     - no child's attribute-form address (Tag[@id='x'], Tag[@schemeIdUri='u'], SegmentTemplate,
       SegmentTimeline) matches another child of the same list (old list, new list);
     - a kept pair has the same tag, id and schemeIdUri (so the same address);
-    - a removed child is not addressed by position;
     - an inserted child's address matches none of the old children still present, nor does the
       address of any of those match the inserted child (no "move").
     Positional addresses of kept and inserted children need no premise: the walk's per-tag counter
@@ -228,7 +227,7 @@ Section Struct.
       match m_kind d with
       | KDel =>
         match nthZ oi1 oc with
-        | Some oe => posb oe = false /\ loop_wa s' (oi1 + 1) ni1
+        | Some oe => loop_wa s' (oi1 + 1) ni1
         | None => False
         end
       | KIns =>
@@ -325,10 +324,9 @@ Section Struct.
       assert (Hnile : ni1 <= lenZ nc).
       { rewrite lenZ_dropZ in Hkf by lia. unfold ni1. lia. }
       split; [exact K1|]. destruct (m_kind d) eqn:EK.
-      + destruct (nthZ oi1 oc) as [oe|] eqn:Eoe; [|contradiction]. destruct HW as [Hpos HW].
+      + destruct (nthZ oi1 oc) as [oe|] eqn:Eoe; [|contradiction].
         split.
-        * rewrite (calcAddr_attr oe oi1 Hpos), <- (calcAddr_attr oe (cnt_of (e_tag oe) (takeZ ni1 nc)) Hpos).
-          now apply resolve_head.
+        * now apply resolve_head.
         * apply IH; try lia; try assumption.
           -- rewrite (dropZ_nth oi1 oc oe Hoi1 Eoe) in Hrest.
              replace (m_old d + 1) with (oi1 + 1) in Hrest by (unfold oi1, k; lia). exact Hrest.
@@ -480,7 +478,7 @@ Section StructB.
       match m_kind d with
       | KDel =>
         match nthZ oi1 oc with
-        | Some oe => negb (posb oe) && loop_wab s' (oi1 + 1) ni1
+        | Some oe => loop_wab s' (oi1 + 1) ni1
         | None => false
         end
       | KIns =>
@@ -498,7 +496,7 @@ Section StructB.
     - apply andb_true_iff in H. destruct H as [H1 H2]. split; [now apply keeps_wab_spec|].
       destruct (m_kind d).
       + destruct (nthZ (oi + (m_old d - oi)) oc); [|discriminate].
-        apply andb_true_iff in H2. destruct H2 as [H2 H3]. split; [now apply negb_true_iff|now apply IH].
+        now apply IH.
       + destruct (nthZ (ni + (m_old d - oi)) nc); [|discriminate].
         apply andb_true_iff in H2. destruct H2 as [H2 H3]. split; [|now apply IH].
         intros o Ho. rewrite forallb_forall in H2. now apply negb_true_iff, H2.
